@@ -627,3 +627,220 @@ def searchsorted_row_lookup(ctx, rule, f, rows, node, boundary_attr="starts", ke
     elif np_call(rows, {"searchsorted"}):
         ok, detail = False, "missing `- 1`: searchsorted(side='right') returns the index after the containing row"
     ctx.decide(rule, f, what, ok, detail, node=node, key=key, engine="E5")
+
+
+# ---------------------------------------------------------------------------
+# U2 - extent-safe boundary gathers
+#
+# extent of a flat array relative to the element count `size` of a ragged array:  (a, b) = a*size + b
+
+def extent_of(t, is_data, is_size, depth=0):
+    """(a, b) or None.  is_data(term): the flat buffer (extent size); is_size(term): the scalar `size`"""
+    if depth > 30:
+        return None
+    rec = lambda x: extent_of(x, is_data, is_size, depth + 1)
+    if is_data(t):
+        return (1, 0)
+    k = t.k
+    if k == "phi":
+        vs = [rec(x) for x in t.a[0]]
+        return vs[0] if vs and all(v is not None and v == vs[0] for v in vs) else None
+    if k == "upd":
+        return rec(t.a[0])
+    if k == "call":
+        nm = np_call(t, {"cumsum", "asanyarray", "asarray", "array", "concatenate", "insert", "append", "diff", "zeros", "ones", "full",
+                         "empty", "zeros_like", "ones_like", "empty_like", "abs", "logical_not", "flatnonzero", "sort", "pad"})
+        args, kw = t.a[1], dict(t.a[2])
+        if nm in ("cumsum", "asanyarray", "asarray", "array", "abs", "logical_not", "sort", "zeros_like", "ones_like", "empty_like") and args:
+            return rec(args[0])
+        if nm == "diff" and args:
+            v = rec(args[0])
+            n = kw.get("n", args[1] if len(args) > 1 else None)
+            if v is None or (n is not None and not (n.k == "const" and isinstance(n.a[0], int))):
+                return None
+            return (v[0], v[1] - (n.a[0] if n is not None else 1))
+        if nm == "insert" and len(args) >= 3:
+            v = rec(args[0])
+            return None if v is None else (v[0], v[1] + 1)
+        if nm == "append" and len(args) >= 2:
+            v = rec(args[0])
+            return None if v is None else (v[0], v[1] + 1)
+        if nm == "concatenate" and args and args[0].k in ("tuple", "list"):
+            a = b = 0
+            for p in args[0].a[0]:
+                if p.k in ("list", "tuple"):
+                    b += len(p.a[0])
+                else:
+                    v = rec(p)
+                    if v is None:
+                        return None
+                    a += v[0]
+                    b += v[1]
+            return (a, b)
+        if nm in ("zeros", "ones", "full", "empty") and args:
+            e = args[0]
+            while e.k == "call" and e.a[0].k == "global" and e.a[0].a[0] == "int" and e.a[1]:
+                e = e.a[1][0]
+            return scalar_size(e, is_size)
+        cn = call_name(t)
+        if cn and cn.split(".")[-1] in ("unsafe_extend_left", "unsafe_extend_right") and args:
+            v = rec(args[0])
+            return None if v is None else (v[0], v[1] + 1)
+        if t.a[0].k == "attr" and t.a[0].a[1] in ("copy", "astype", "ravel", "view", "cumsum", "cumprod") :
+            return rec(t.a[0].a[0])
+        if t.a[0].k == "attr" and t.a[0].a[1] == "accumulate" and args:
+            return rec(args[0])
+        return None
+    if k == "sub":
+        v = rec(t.a[0])
+        idx = t.a[1]
+        if v is None or idx.k != "slice":
+            return None
+        lo, hi, st = idx.a
+        if not (is_const(st, None) or is_const(st, 1)):
+            return None
+        d = 0
+        if not is_const(lo, None):
+            if not (lo.k == "const" and isinstance(lo.a[0], int) and lo.a[0] >= 0):
+                return None
+            d += lo.a[0]
+        if not is_const(hi, None):
+            if not (hi.k == "const" and isinstance(hi.a[0], int) and hi.a[0] < 0):
+                return None
+            d += -hi.a[0]
+        return (v[0], v[1] - d)
+    if k in ("bin", "cmp"):
+        a, b = rec(t.a[1]), rec(t.a[2])
+        if a is not None and b is not None:
+            return a if a == b else None
+        return a or b
+    if k == "un":
+        return rec(t.a[1])
+    return None
+
+
+def scalar_size(e, is_size):
+    if is_size(e):
+        return (1, 0)
+    if e.k == "const" and isinstance(e.a[0], int):
+        return (0, e.a[0])
+    if e.k == "bin" and e.a[0] in ("+", "-"):
+        a, b = scalar_size(e.a[1], is_size), scalar_size(e.a[2], is_size)
+        if a is None or b is None:
+            return None
+        return (a[0] + b[0], a[1] + b[1]) if e.a[0] == "+" else (a[0] - b[0], a[1] - b[1])
+    return None
+
+
+def boundary_index(t):
+    """classify an index term built from all rows' boundaries:
+    returns (kind, lo_shift, hi_shift) with kind in {"starts","ends"}; value range is
+    [0+lo_shift, size+hi_shift];  None when the term is not such an index.  'clamped' when wrapped in
+    minimum(., size-1)"""
+    if t.k == "phi":
+        rs = [boundary_index(x) for x in t.a[0]]
+        return rs[0] if rs and all(r == rs[0] for r in rs) else None
+    if t.k == "sub" and t.a[1].k == "slice":
+        return boundary_index(t.a[0])           # starts[1:], ends[:-1]: same value range
+    c = attr_chain(t)
+    if c and len(c) >= 2 and c[-1] in ("starts", "ends") and c[-2] == "_shape":
+        return (c[-1], 0, 0)
+    if t.k == "bin" and t.a[0] in ("+", "-") and t.a[2].k == "const" and isinstance(t.a[2].a[0], int):
+        b = boundary_index(t.a[1])
+        if b is not None:
+            d = t.a[2].a[0] if t.a[0] == "+" else -t.a[2].a[0]
+            return (b[0], b[1] + d, b[2] + d)
+    if np_call(t, {"minimum"}) and len(t.a[1]) == 2:
+        for x, y in ((t.a[1][0], t.a[1][1]), (t.a[1][1], t.a[1][0])):
+            b = boundary_index(x)
+            if b is not None and y.k == "bin" and y.a[0] == "-" and is_const(y.a[2], 1) and (attr_chain(y.a[1]) or ("",))[-1] == "size":
+                return (b[0], b[1], -1)
+    return None
+
+
+def boundary_gather_rules(ctx, tk, rule, funcs):
+    """U2 over the given functions: A[I] with I all rows' starts/ends needs extent(A) >= size+1 (rows may be
+    empty at the end: start == end == size), and I >= 0"""
+    for f in funcs:
+        fa = ctx.fa(f)
+        seen = set()
+        for n in fa.cfg.stmts():
+            cands = []
+            for e in _exprs_n(n):
+                for sub in ast.walk(e):
+                    if isinstance(sub, ast.Subscript):
+                        cands.append(sub)
+            if n.kind == "stmt" and isinstance(n.ast, (ast.Assign, ast.AugAssign)):
+                tg = n.ast.targets[0] if isinstance(n.ast, ast.Assign) else n.ast.target
+                if isinstance(tg, ast.Subscript):
+                    cands.append(tg)
+            for sub in cands:
+                if id(sub) in seen:
+                    continue
+                seen.add(id(sub))
+                idx = fa.term(sub.slice, n)
+                b = boundary_index(idx)
+                if b is None:
+                    continue
+                arr = fa.term(sub.value, n)
+                owner = _owner_of_boundary(idx)
+                if owner is None:
+                    continue
+                def is_data(t, owner=owner):
+                    if not (t.k == "call" and t.a[0].k == "attr" and t.a[0].a[1] == "ravel" and not t.a[1]):
+                        return False
+                    o = t.a[0].a[0]
+                    if o == owner:
+                        return True
+                    # geometry-preserving derivations of the owner: owner.sort() / owner.astype(...)
+                    return o.k == "call" and o.a[0].k == "attr" and o.a[0].a[1] in ("sort", "astype", "copy") and o.a[0].a[0] == owner
+                is_size = lambda t, owner=owner: (t.k == "attr" and t.a[1] == "size" and (t.a[0] == owner or (t.a[0].k == "attr" and t.a[0].a[1] == "_shape" and t.a[0].a[0] == owner)))
+                ext = extent_of(arr, is_data, is_size)
+                what = "a gather/scatter at every row's %s addresses inside the array (rows may be empty at either end)" % b[0][:-1]
+                if ext is None:
+                    ctx.unknown(rule, f, what, "extent of %s not decided" % (arr,), node=sub, engine="E5")
+                    continue
+                if ext[0] != 1:
+                    continue
+                hi_ok = b[2] <= ext[1] - 1          # max index size+b[2] <= size+ext_b-1
+                lo_ok = b[1] >= 0
+                detail = []
+                if not hi_ok:
+                    # licensed by a dominating emptiness refusal?  (size == 0 early exit does not help: trailing empty row)
+                    detail.append("the index reaches size%+d but the array has size%+d entries: IndexError as soon as the last row is empty" % (b[2], ext[1]))
+                if not lo_ok:
+                    lic = _wrap_licence(fa, n, sub)
+                    if lic:
+                        lo_ok = True
+                    else:
+                        detail.append("the index can be %d (a leading empty row / first row): it wraps to the end of the array" % b[1])
+                ctx.decide(rule, f, what, hi_ok and lo_ok, "; ".join(detail), node=sub, engine="E5")
+
+
+def _owner_of_boundary(idx):
+    for x in walk(idx):
+        c = attr_chain(x)
+        if x.k == "attr" and x.a[1] in ("starts", "ends") and x.a[0].k == "attr" and x.a[0].a[1] == "_shape":
+            return x.a[0].a[0]
+    return None
+
+
+def _wrap_licence(fa, n, sub):
+    """a store `A[-1] = const` on the same array that dominates the gather makes the -1 wrap intentional"""
+    name = sub.value.id if isinstance(sub.value, ast.Name) else None
+    if name is None:
+        return False
+    for m in fa.cfg.stmts():
+        if m.kind == "stmt" and isinstance(m.ast, ast.Assign) and isinstance(m.ast.targets[0], ast.Subscript):
+            tg = m.ast.targets[0]
+            if isinstance(tg.value, ast.Name) and tg.value.id == name and isinstance(tg.slice, ast.UnaryOp) and isinstance(tg.slice.op, ast.USub) \
+                    and isinstance(tg.slice.operand, ast.Constant) and tg.slice.operand.value == 1 and fa.cfg.dominates(m, n):
+                return True
+            if isinstance(tg.value, ast.Name) and tg.value.id == name and isinstance(tg.slice, ast.Constant) and tg.slice.value == -1 and fa.cfg.dominates(m, n):
+                return True
+    return False
+
+
+def _exprs_n(n):
+    from .resolve import _exprs_of_node
+    return _exprs_of_node(n)
